@@ -306,6 +306,72 @@ let ri_cmd (args : string list) : string =
     Printf.sprintf "swept n=%d digest=%016Lx" !count !h
   | _ -> "bad-command"
 
+(* ---------- C04: commit oracle (Conc/Oracle.v) and sequential commit machine (Conc/CommitSeq.v) ----------
+   The fingerprint function of the model is a table: the i-th distinct key string seen gets
+   fingerprint i (injective by construction; the crate uses xxh3_64, so agreement holds unless
+   xxh3_64 collides on the keys of a script). *)
+let fp_tab : (string, int) Hashtbl.t = Hashtbl.create 4096
+let fp_of (k : n list) : n =
+  let h = hex_of_bytes k in
+  match Hashtbl.find_opt fp_tab h with
+  | Some i -> n_of_int i
+  | None -> let i = Hashtbl.length fp_tab + 1 in Hashtbl.replace fp_tab h i; n_of_int i
+let keys_of (tok : string) : n list list = if tok = "-" || tok = "" then [] else List.map bytes_of_hex (String.split_on_char ',' tok)
+let show_keys (ks : n list list) : string = if ks = [] then "-" else String.concat "," (List.map hex_of_bytes ks)
+let ns s = n_of_int (int_of_string s)
+let orc_state = ref o_new
+let orc_cmd (args : string list) : string =
+  match args with
+  | ["new"] -> orc_state := o_new; "ok"
+  | ["params"] -> Printf.sprintf "GC_INTERVAL=%d" (int_of_n oRACLE_GC_INTERVAL)
+  | ["check"; start; keys] ->
+    (match check fp_of !orc_state (keys_of keys) (ns start) with VOk -> "ok" | VConflict -> "conflict" | VRetry -> "retry")
+  | ["publish"; seq; count; oldest; keys] ->
+    orc_state := publish fp_of oRACLE_GC_INTERVAL !orc_state (keys_of keys) (ns seq) (ns count) (ns oldest); "ok"
+  | ["rollback"; stamp; keys] -> orc_state := rollback fp_of !orc_state (keys_of keys) (ns stamp); "ok"
+  | ["reset"; max] -> orc_state := reset_for_restore !orc_state (ns max); "ok"
+  | ["dump"; keys] ->
+    let ks = keys_of keys in
+    let parts = List.map (fun k -> Printf.sprintf "%s:%d" (hex_of_bytes k) (int_of_n (observe_key fp_of !orc_state k))) ks in
+    Printf.sprintf "kept=%d obs=%s" (int_of_n !orc_state.kept_since) (if parts = [] then "-" else String.concat "," parts)
+  | ["hidden"] -> (* model only: the parts of the state the crate does not let a caller see *)
+    Printf.sprintf "kept=%d since_gc=%d entries=%d" (int_of_n !orc_state.kept_since) (int_of_n !orc_state.commits_since_gc) (List.length !orc_state.recent)
+  | _ -> "bad-command"
+
+let cs_state = ref c0
+let cs_fixed = ref false
+let cs_ckpt : n option ref = ref None
+let cs_calls : ocall list ref = ref []
+let show_call = function
+  | CCheck (ks, st) -> Printf.sprintf "check:%d:%s" (int_of_n st) (show_keys ks)
+  | CPublish (ks, seq, cnt, old) -> Printf.sprintf "publish:%d:%d:%d:%s" (int_of_n seq) (int_of_n cnt) (int_of_n old) (show_keys ks)
+  | CRollback (ks, st) -> Printf.sprintf "rollback:%d:%s" (int_of_n st) (show_keys ks)
+  | CReset m -> Printf.sprintf "reset:%d" (int_of_n m)
+let show_outcome = function
+  | OOk -> "ok" | OConflict -> "conflict" | ORetry -> "retry" | OFailed -> "failed" | ONoTx -> "notx" | OClosed -> "closed" | OBad -> "bad"
+let cs_cmd (args : string list) : string =
+  let run c =
+    let ((s, o), calls) = cs_step fp_of oRACLE_GC_INTERVAL !cs_fixed !cs_state c in
+    cs_state := s; cs_calls := calls; show_outcome o in
+  match args with
+  | ["new"] -> cs_state := c0; cs_ckpt := None; cs_calls := []; "ok"
+  | ["fixed"; b] -> cs_fixed := (b = "1"); "ok"   (* model only: 1 = the repaired rollback *)
+  | ["begin"; id; m] ->
+    (match m with
+     | "rw" -> run (SBegin (ns id, BRW)) | "wo" -> run (SBegin (ns id, BWO)) | "un" -> run (SBegin (ns id, BUnreg))
+     | _ -> "unsupported")
+  | ["end"; id] -> run (SEnd (ns id))
+  | ["commit"; id; keys; fail] -> run (SCommit (ns id, keys_of keys, fail = "1"))
+  | ["checkpoint"] -> cs_ckpt := Some !cs_state.c_visible; cs_calls := []; "ok"
+  | ["restore"] -> (match !cs_ckpt with None -> "nockpt" | Some m -> run (SRestore m))
+  | ["restoreto"; m] -> run (SRestore (ns m))       (* model only *)
+  | ["calls"] -> if !cs_calls = [] then "-" else String.concat "|" (List.map show_call !cs_calls)   (* model only *)
+  | ["state"] ->                                    (* model only *)
+    let s = !cs_state in
+    Printf.sprintf "visible=%d next=%d kept=%d since_gc=%d entries=%d done=%d" (int_of_n s.c_visible) (int_of_n s.c_next)
+      (int_of_n s.c_orc.kept_since) (int_of_n s.c_orc.commits_since_gc) (List.length s.c_orc.recent) (List.length s.c_done)
+  | _ -> "bad-command"
+
 let () =
   try
     while true do
@@ -317,6 +383,8 @@ let () =
             | "wal" :: rest -> wal_cmd rest
             | "e2" :: rest -> e2_cmd rest
             | "ck" :: rest -> ck_cmd rest
+            | "orc" :: rest -> orc_cmd rest
+            | "cs" :: rest -> cs_cmd rest
             | "ri" :: rest -> ri_cmd rest
             | "lk" :: rest -> lk_cmd rest
             | _ -> "bad-command"
